@@ -61,7 +61,7 @@ def body(case, ctx):
             ctx.fail("not-exact-to-degree", msg)
     if want_size <= 2000:
         # the same grid through the cache (filled, then hit) and through the size= route is the same quadrature
-        for route in ("cache-fill", "cache-hit", "size"):
+        for route in ("cache-fill", "cache-hit", "size", "cache-hit-after-uncached-build"):
             g2 = AngularGrid(size=want_size, method=method, cache=False) if route == "size" else AngularGrid(degree=degree, method=method, cache=True)
             same = g2.points.shape == g.points.shape and np.array_equal(g2.points, g.points) and np.array_equal(g2.weights, g.weights)
             ctx.check(same and g2.degree == degree, "route-dependent-grid", f"{method} degree {degree}: grid via {route} differs from the cache=False grid")
